@@ -112,8 +112,7 @@ def transmission(ctx, n, nw, ng, degenerate):
 
 @harness('C20', 'emission',
          quick=[dict(n=2, nw=1, ng=2, nq=1), dict(n=2, nw=1, ng=2, nq=2, _shards=2), dict(n=3, nw=1, ng=2, nq=1, _shards=2)],
-         thorough=[dict(n=2, nw=2, ng=2, nq=2, _shards=4), dict(n=3, nw=1, ng=3, nq=2, _shards=4), dict(n=3, nw=2, ng=2, nq=1, _shards=8),
-                   dict(n=4, nw=1, ng=2, nq=2, _shards=8)],
+         thorough=[dict(n=2, nw=2, ng=2, nq=2, _shards=4), dict(n=3, nw=1, ng=2, nq=2, _shards=4), dict(n=3, nw=2, ng=2, nq=1, _shards=8)],
          covers=['unclamped', 'clamped'], functions=FUNCS,
          stubs=STUBS + ['real Gauss-Legendre nodes (concrete)'], shard_depth=3,
          outside=['counts beyond those listed', 'mixed molecular + non-molecular contributions in k-table mode'])
@@ -225,7 +224,7 @@ def _weights_named(ctx, ng, name):
     return w
 
 
-@harness('C20', 'regrid', quick=[dict(nn=3, nr=2, ng=2, _shards=4)], thorough=[dict(nn=4, nr=2, ng=2, _shards=8), dict(nn=3, nr=3, ng=3, _shards=8)],
+@harness('C20', 'regrid', quick=[dict(nn=3, nr=2, ng=2, _shards=4)], thorough=[dict(nn=4, nr=2, ng=2, _shards=8), dict(nn=3, nr=2, ng=3, _shards=8)],
          functions=FUNCS + ['taurex.opacity.ktables.ktable:KTable.opacity', 'taurex.opacity.opacity:Opacity.opacity'],
          stubs=STUBS + ['scipy.interpolate.interp1d -> sorted piecewise-linear with fill values', 'np.interp -> numpy-exact contract'],
          shard_depth=4, outside=['requested ranges selecting fewer than two native points'])
